@@ -12,8 +12,10 @@ PROPERTY = "C10"
 RULE = ("Hypothesis draws exact non-vacuum (W) and vacuum (KS, PP, F) "
         "spacetimes with any lapse/shift, grid, order, boundary, vacuum flag "
         "consistent with the data, tetrad choice and (for the invariance "
-        "sub-check) two different fluid velocity fields; aurel at two "
-        "resolutions. Oracles: exact Weyl / E / B from the 4D reference in "
+        "sub-check) two different fluid velocity fields, Einstein's constant "
+        "(8 pi, 1, 2.5), KS also with the box inside the horizon; aurel at "
+        "two resolutions (a convergence failure is re-examined on the next "
+        "finer pair and reported only if it persists). Oracles: exact Weyl / E / B from the 4D reference in "
         "both cache states, algebraic symmetries, tetrad orthonormality, "
         "16 Re(I) = Kretschmann and the Petrov-type relations on vacuum "
         "data, invariance of I and J between orthonormal tetrads. "
